@@ -3,7 +3,7 @@
    one local update (shared with C06), the identity embedding of the two-node case.  The
    bound on a new bond is the truncation rule of C10 (Trunc/Select.v).  Statements only. *)
 From Coq Require Import List Arith ZArith QArith.
-From PTN Require Import TTN.Store TTN.Canon TTN.Inv TTN.CanonTree Evo.TDVPStore Evo.TDVPStoreEffects Evo.TDVPTwoSite Evo.TDVPStoreProofs.   (* store level, see the end *)
+From PTN Require Import TTN.Store TTN.Canon TTN.Inv TTN.CanonTree Evo.TDVPStore Evo.TDVPStoreEffects Evo.TDVPTwoSite Evo.TDVPStoreProofs Evo.TDVPTwoSiteIso.   (* store level, see the end *)
 From PTN Require Import Tree.RTree Tree.Nav Tree.UpdatePath Tree.CachePath Tree.Enum Tree.EnumProofs
      Sched.TDVP Sched.TDVPProofs Sched.TDVPMore Sched.TDVPFresh Sched.TDVPBounded Sched.TDVPUniversal Sched.TDVPFreshU Trunc.Select Trunc.SelectProofs.
 Import ListNotations.
@@ -173,3 +173,72 @@ Example C07_store_example :
   end.
 Proof. vm_compute. repeat split; reflexivity. Qed.
 Print Assumptions C07_store_example.
+
+(* ==== the canonical-form clause, for EVERY tree (Evo/TDVPTwoSiteIso.v) ========================================= *)
+(* iso_check2 (Evo/TDVPStore.v): every node other than the recorded centre is a single atom, the first factor of a QR
+   call (kind 0) or of a truncated SVD (kind 4), whose bond wire sits on the node's leg toward the centre.  It is an
+   invariant of every event of the two-site trace. *)
+
+(* one two-site update with the centre on a: afterwards the attribute holds w.r.t. centre b (a keeps the first SVD
+   factor U with the new bond on its leg toward b, b receives S Vh; the direction toward the centre of every third node
+   is the same for a and b) *)
+Theorem C07_two_site_update_canonical : forall new s a b bd s3 na,
+  Inv.wf s -> aget a (nodes s) = Some na -> aget new (nodes s) = None ->
+  iso_check2 (s, Some a) = true ->
+  two_site_update s a b new bd = Some s3 -> iso_check2 (s3, Some b) = true.
+Proof. exact two_site_update_iso2. Qed.
+Print Assumptions C07_two_site_update_canonical.
+
+(* the whole step: as C07_two_site_step_on_store, and if the state is in (extended) canonical form at update_path[0]
+   when the step starts, it is in canonical form at update_path[0] when the step ends -- every tree, every child order,
+   every list of bond dimensions that is long enough *)
+Theorem C07_two_site_step_canonical : forall lk tw tmp t s u rest bds,
+  NoDup (ids t) -> 2 <= size t -> tmatch t (nodes s) -> wfb s = true -> update_path t = Some (u :: rest) ->
+  iso_check2 (s, Some u) = true ->
+  amem tmp (nodes s) = false -> (forall a b, amem (tw a b) (nodes s) = false) ->
+  (forall tr, trace2s t = Some tr -> count_two tr <= length bds) ->
+  exists cs' bds', tdvp2s_step_t lk tw tmp t (s, Some u) bds = Some (cs', bds') /\
+    wfb (fst cs') = true /\ same_tree (nodes s) (nodes (fst cs')) /\ root (fst cs') = root s /\
+    snd cs' = Some u /\ tmatch t (nodes (fst cs')) /\ iso_check2 cs' = true /\
+    (forall tr, trace2s t = Some tr -> length bds' + count_two tr = length bds).
+Proof. exact tdvp2s_step_t_canonical. Qed.
+Print Assumptions C07_two_site_step_canonical.
+
+(* any number of consecutive steps (one list of bond dimensions per step; the paths are those of the initial tree, the
+   store's child order drifts) *)
+Theorem C07_two_site_steps_canonical : forall lk tw tmp t u rest,
+  NoDup (ids t) -> 2 <= size t -> update_path t = Some (u :: rest) ->
+  forall bss s, tmatch t (nodes s) -> wfb s = true -> iso_check2 (s, Some u) = true ->
+  amem tmp (nodes s) = false -> (forall a b, amem (tw a b) (nodes s) = false) ->
+  (forall bds tr, In bds bss -> trace2s t = Some tr -> count_two tr <= length bds) ->
+  exists cs', iter_step2s lk tw tmp t bss (s, Some u) = Some cs' /\
+    wfb (fst cs') = true /\ same_tree (nodes s) (nodes (fst cs')) /\ root (fst cs') = root s /\
+    snd cs' = Some u /\ tmatch t (nodes (fst cs')) /\ iso_check2 cs' = true.
+Proof. exact tdvp2s_steps_canonical. Qed.
+Print Assumptions C07_two_site_steps_canonical.
+
+(* the hypothesis is what the constructor establishes: canonical_form yields the attribute (the QR attribute iso_check
+   of C03 implies the extended one), and TDVPAlgorithm.__init__ on a state without a recorded centre (canonical form at
+   update_path[0], then the cache initialisation, which only reads tensors) ends with it *)
+Theorem C07_canonical_form_establishes : forall s oc c m rid cs',
+  wfb s = true -> amem rid (nodes s) = false ->
+  canonical_form (s, oc) c m rid = Some cs' -> iso_check2 cs' = true.
+Proof. exact canonical_form_iso_check2. Qed.
+Print Assumptions C07_canonical_form_establishes.
+
+Theorem C07_constructor_establishes : forall lk tmp t s cs1,
+  wfb s = true -> amem tmp (nodes s) = false ->
+  tdvp_init lk tmp t (s, None) = Some cs1 ->
+  exists u rest, update_path t = Some (u :: rest) /\ snd cs1 = Some u /\
+    wfb (fst cs1) = true /\ same_tree (nodes s) (nodes (fst cs1)) /\ iso_check2 cs1 = true.
+Proof. exact tdvp_init_iso2. Qed.
+Print Assumptions C07_constructor_establishes.
+
+(* non-vacuity of the hypotheses: the input state of C07_store_example satisfies the attribute *)
+Example C07_store_example_hyp :
+  match C07_store_ex with
+  | Some (s, c) => iso_check2 (s, c) = true /\ wfb s = true /\ 2 <= length (nodes s)
+  | None => False
+  end.
+Proof. vm_compute. repeat split; try reflexivity. repeat constructor. Qed.
+Print Assumptions C07_store_example_hyp.
